@@ -390,7 +390,7 @@ func c20Worker(ctx *core.Ctx) *core.Result {
 func init() {
 	registerSharded("C20", c20Worker, func(tier string) core.Meta {
 		return core.Meta{ID: "C20", Level: "exploration",
-			Rule: "the statement's finite family, enumerated completely: for every configuration line of every DEVICE and NETSPOC block (main, ipv6, raw) of go/testdata/*.t, in the context of its own test: every word-prefix truncation, single-token deletion, line emptied (quick) plus token duplication, adjacent swap, indentation +1/-1/0, truncation of the file at every line (thorough); a second blank between two tokens, the last token repeated 12 times, an object-group reference inserted at every position of an ACL entry; structural operators for JSON inputs (NSX: every value replaced by null; thorough: by an empty array, object or string, a number, every key deleted) and XML inputs (PAN-OS: every element emptied / deleted; every <member> of an entry replaced by the entry's own name - these through the drc binary, since a stack overflow cannot be recovered in-process); role changes of whole files (IPv4 code also as raw / as IPv6 code / only as raw, device configuration as raw, raw as code); whole-file cases (empty, NUL, 64 KiB token, unterminated quote, only [APPEND], binary); both argument positions; the part-shape combinations of C18 as further legal inputs (crash oracle only); info files: every prefix truncation and type confusion; each mutant goes through the real device.CompareFiles in-process; verdict: exit status 0 or 1, message on stderr when 1, no runtime panic, no case longer than 20 s; identical mutants are run once; non-trivial = mutants the tool rejected or crashed on; status files and do-approve/missing-approve inputs: see C13 (damaged status files)",
+			Rule: "the statement's finite family, enumerated completely: for every configuration line of every DEVICE and NETSPOC block (main, ipv6, raw) of go/testdata/*.t, in the context of its own test: every word-prefix truncation, single-token deletion, line emptied (quick) plus token duplication, adjacent swap, indentation +1/-1/0, truncation of the file at every line (thorough); a second blank between two tokens, the last token repeated 12 times, an object-group reference inserted at every position of an ACL entry; structural operators for JSON inputs (NSX: every value replaced by null; thorough: by an empty array, object or string, a number, every key deleted) and XML inputs (PAN-OS: every element emptied / deleted; every <member> of an entry replaced by the entry's own name - these through the drc binary, since a stack overflow cannot be recovered in-process); role changes of whole files (IPv4 code also as raw / as IPv6 code / only as raw, device configuration as raw, raw as code); whole-file cases (empty, NUL, 64 KiB token, unterminated quote, only [APPEND], binary); both argument positions; the part-shape combinations of C18 as further legal inputs (crash oracle only); info files: every prefix truncation and type confusion, and name_list x ip_list of 0..3 entries each in dialogue runs of all five device types with every single deviation of C09 (the loop over the lists is reached only when earlier logins fail); each mutant goes through the real device.CompareFiles in-process; verdict: exit status 0 or 1, message on stderr when 1, no runtime panic, no case longer than 20 s; identical mutants are run once; non-trivial = mutants the tool rejected or crashed on; status files and do-approve/missing-approve inputs: see C13 (damaged status files)",
 			Assumptions: []string{"a runtime panic recovered in-process is what the binaries turn into exit status 2 plus a Go trace (confirmed on the real binary for each call site listed in known-findings.json)"},
 			Bounds:      map[string]any{"quick": "truncate, delete-token, empty-line operators", "thorough": "all operators + file truncations"},
 		}
